@@ -109,6 +109,11 @@ def accepted_own_raise(fi, n):
     KeyError the subscription raises anyway -- not an exception of the chain's own"""
     par = util.parents_map(fi.node)
     up = par.get(id(n))
+    # `e = fut.exception(); if e is not None: raise e`: the payload's own exception, taken from the future that ran it
+    if isinstance(up, ast.If) and n in up.body and isinstance(n.exc, ast.Name) and n.cause is None:
+        src = [a for a in ast.walk(fi.node) if isinstance(a, ast.Assign) and len(a.targets) == 1 and isinstance(a.targets[0], ast.Name) and a.targets[0].id == n.exc.id]
+        if len(src) == 1 and isinstance(src[0].value, ast.Call) and isinstance(src[0].value.func, ast.Attribute) and src[0].value.func.attr == "exception" and not src[0].value.args:
+            return True
     if not isinstance(up, ast.If) or n not in up.body or up.orelse:
         return False
     t = up.test
@@ -404,7 +409,53 @@ def payload_is_opaque(chk):
         chk.ok(rule, "<execute chain>", "%d uses of the payload on the execute chain: it is only bound, handed on and called" % n)
 
 
+def concurrent_result_is_total(chk):
+    """O10.8: concurrent.futures.Future.result() raises the stored exception only when it is TRUTHY (library fact, cross-read:
+    `if self._exception:`); an exception class that defines __len__ / __bool__ can be false, and result() then returns None.
+    Where the execute chain takes the payload's outcome from such a future it must ask `exception() is not None` itself"""
+    prog = chk.program
+    from .. import libfacts
+
+    rule = "O10.8"
+    chk.facts.update({k: v for k, v in libfacts.cross_read().items() if "concurrent.futures" in k})
+    fns, _runners = chain_functions(chk)
+    n = 0
+    ok = True
+    for label, fi in fns:
+        futs = {}
+        for a in ast.walk(fi.node):
+            if isinstance(a, ast.Assign) and len(a.targets) == 1 and isinstance(a.targets[0], ast.Name) and isinstance(a.value, ast.Call) and prog.resolve(fi.module, a.value.func) in ("ext:asyncio.run_coroutine_threadsafe",):
+                futs[a.targets[0].id] = a
+        direct = [c for c in ast.walk(fi.node) if isinstance(c, ast.Call) and isinstance(c.func, ast.Attribute) and c.func.attr == "result" and isinstance(c.func.value, ast.Call) and prog.resolve(fi.module, c.func.value.func) == "ext:asyncio.run_coroutine_threadsafe"]
+        for c in direct:
+            n += 1
+            chk.count()
+            chk.bad(rule, fi.qual, "%s returns run_coroutine_threadsafe(...).result(): a payload exception whose truth value is false is not raised -- the caller gets None" % label, node=c, stmt="concurrent-result-unchecked in %s" % fi.name, input="payload raises an exception e with bool(e) == False")
+            ok = False
+        for nm in futs:
+            results = [c for c in ast.walk(fi.node) if isinstance(c, ast.Call) and isinstance(c.func, ast.Attribute) and c.func.attr == "result" and isinstance(c.func.value, ast.Name) and c.func.value.id == nm]
+            for c in results:
+                n += 1
+                chk.count()
+                # accepted: an earlier `e = fut.exception()` whose value is tested with `is not None` and raised
+                asked = [a for a in ast.walk(fi.node) if isinstance(a, ast.Call) and isinstance(a.func, ast.Attribute) and a.func.attr == "exception" and isinstance(a.func.value, ast.Name) and a.func.value.id == nm and a.lineno <= c.lineno]
+                tested = any(isinstance(t, ast.If) and isinstance(t.test, ast.Compare) and len(t.test.ops) == 1 and isinstance(t.test.ops[0], ast.IsNot) and isinstance(t.test.comparators[0], ast.Constant) and t.test.comparators[0].value is None and any(isinstance(r, ast.Raise) for r in t.body) and t.lineno <= c.lineno for t in ast.walk(fi.node))
+                if not (asked and tested):
+                    chk.bad(
+                        rule,
+                        fi.qual,
+                        "%s hands the caller %s.result() of a concurrent future without asking `exception() is not None` first: Future.result() raises the stored exception only if it is truthy, so a payload exception that is false (it defines __len__ or __bool__) is swallowed and execute returns None instead of raising it" % (label, nm),
+                        node=c,
+                        stmt="concurrent-result-unchecked in %s" % fi.name,
+                        input="payload raises an exception e with bool(e) == False",
+                    )
+                    ok = False
+    if ok:
+        chk.ok(rule, "<execute chain>", "%d outcomes taken from a concurrent future: each asks exception() is not None before result()" % n)
+
+
 def run(chk):
+    chk.guard("O10.8", "<execute chain>", concurrent_result_is_total, chk)
     chk.guard("O10.7", "<execute chain>", payload_is_opaque, chk)
     res = chk.guard("O10.1", "<execute chain>", identity_and_transparency, chk)
     if res:
